@@ -83,10 +83,12 @@ where
       let (vs, rem') ← parseItems rem
       pure (v :: vs, rem')
 
+/-- the public `der_decode` / `der_decode_partial` report every content error as ASN1DecodeError (the wrapper
+    added by repair 1ed480b converts what the type constructors raise); the model keeps the finer classes -/
 def showErr : DerErr → String
   | .decode => "err decode"
-  | .encode => "err encode"
-  | .unicode => "err unicode"
+  | .encode => "err decode"
+  | .unicode => "err decode"
   | .fuel => "err fuel"
 
 def optHex : Option Bytes → String
